@@ -337,7 +337,7 @@ def grammar(draw, regimes=("BOOL", "MT", "FREE", "QQ", "FLOAT"), shape=None, sym
         g = repair(g, mode)
     g["rules"] = draw(weights(g, regime))
     g["regime"] = regime
-    if signed and regime == "QQ" and draw(st.integers(0, 3)) == 0:
+    if signed and regime == "QQ" and draw(st.integers(0, 1)) == 0:
         # a field is a commutative semiring too: signed weights (absolute values stay dominated, so
         # every series still converges absolutely); sums can now cancel to exactly zero
         g["rules"] = [[(F(-Fraction(w)) if draw(st.integers(0, 2)) == 0 else w), h, b] for w, h, b in g["rules"]]
